@@ -60,6 +60,7 @@ class C13(Property):
         "Flatland.C13.Proofs.C13_full_fails",
         "Flatland.C13.Proofs.C13_full_fails_backslash",
         "Flatland.C13.Proofs.find_one_fq",
+        "Flatland.C13.Proofs.fqName_injective",
         "Flatland.Path.Lemmas.tokenize_segs",
         "Flatland.Path.Lemmas.pyInt_natStr",
     ]
